@@ -64,19 +64,23 @@ Qed.
 
 Definition op_nf (o : op) : str * str := (op_name o, o_flavor (op_opts o)).
 
+Lemma declare_acts1_scope f n v pl : Forall (fun x => act_nf x = (n, f)) (declare_acts1 f n v pl).
+Proof.
+  unfold declare_acts1. destruct (dp_write pl); [|constructor]. constructor; [reflexivity|].
+  destruct (dp_tag pl); repeat constructor.
+Qed.
+
+Lemma deltags_scope rs n x f : Forall (fun y => act_nf y = (n, f)) (map (fun r => ADelTag r n x f) rs).
+Proof. apply Forall_forall. intros y Hy. apply in_map_iff in Hy. destruct Hy as [r0 [<- _]]. reflexivity. Qed.
+
 Lemma declare_finish_scope p a f n v pl acts :
   declare_finish p a f n v pl = Ok acts -> Forall (fun x => act_nf x = (n, f)) acts.
 Proof.
-  unfold declare_finish.
-  set (acts1 := if dp_write pl then _ else _).
-  assert (H1 : Forall (fun x => act_nf x = (n, f)) acts1).
-  { unfold acts1. destruct (dp_write pl); [|constructor]. constructor; [reflexivity|].
-    destruct (dp_tag pl); repeat constructor. }
-  destruct (dp_tag pl) as [x|]; [|intro H; inversion H; subst; exact H1].
-  destruct (find_exact _ _ n v f) as [[s' r]|]; [|discriminate].
-  intro H. inversion H. subst acts. apply Forall_app. split; [exact H1|]. apply Forall_app. split.
-  - apply Forall_forall. intros y Hy. apply in_map_iff in Hy. destruct Hy as [r0 [<- _]]. reflexivity.
-  - repeat constructor.
+  intro H. apply declare_finish_shape in H.
+  destruct (dp_tag pl) as [x|]; [|subst acts; apply declare_acts1_scope].
+  destruct H as [rs [rs' [-> _]]].
+  apply Forall_app. split; [apply declare_acts1_scope|]. apply Forall_app. split; [apply deltags_scope|].
+  constructor; [reflexivity|apply deltags_scope].
 Qed.
 
 Lemma decide_scope p a o acts : decide p a o = Ok acts -> Forall (fun x => act_nf x = op_nf o) acts.
@@ -194,16 +198,6 @@ Qed.
 
 (* ---------------------------------------------------------------- declare *)
 
-Definition is_tag_act (x : aact) : Prop :=
-  match x with ASetTag _ _ _ _ _ | ADelTag _ _ _ _ => True | _ => False end.
-
-Lemma tag_acts_keep_decls xs : Forall is_tag_act xs ->
-  forall a s n v f, a_decl (aapply_all xs a) s n v f = a_decl a s n v f.
-Proof.
-  induction 1 as [|x xs Hx _ IH]; intros a s n v f; [reflexivity|].
-  rewrite aapply_all_cons, IH, a_decl_aapply. destruct x; cbn in Hx; try contradiction; reflexivity.
-Qed.
-
 Lemma deltags_spec rs n x f : forall a,
   (forall s n' t' f', a_tag (aapply_all (map (fun r => ADelTag r n x f) rs) a) s n' t' f' =
      if mem_str s rs && str_eqb n' n && str_eqb t' x && str_eqb f' f then None else a_tag a s n' t' f').
@@ -215,30 +209,6 @@ Proof.
   - destruct (mem_str r rs); cbn [andb]; destruct (str_eqb n' n && str_eqb t' x && str_eqb f' f); reflexivity.
   - reflexivity.
 Qed.
-
-Lemma deltags_tag_acts rs n x f : Forall is_tag_act (map (fun r => ADelTag r n x f) rs).
-Proof. apply Forall_forall. intros y Hy. apply in_map_iff in Hy. destruct Hy as [r [<- _]]. exact I. Qed.
-
-(* the first part of a declaration: the record, and the tag in the target stack *)
-Definition declare_acts1 (f n v : str) (pl : dplan) : list aact :=
-  if dp_write pl
-  then ASetDecl (dp_target pl) n v f (dp_dir pl, dp_table pl) ::
-       match dp_tag pl with Some x => [ASetTag (dp_target pl) n x f v] | None => [] end
-  else [].
-
-Lemma declare_finish_unfold p a f n v pl :
-  declare_finish p a f n v pl =
-  match dp_tag pl with
-  | None => Ok (declare_acts1 f n v pl)
-  | Some x =>
-      let a1 := aapply_all (declare_acts1 f n v pl) a in
-      let acts2 := map (fun r => ADelTag r n x f) (occurrences p a1 n x f) in
-      match find_exact (aapply_all acts2 a1) [dp_target pl; dp_target pl] n v f with
-      | Some (s', _) => Ok (declare_acts1 f n v pl ++ acts2 ++ [ASetTag s' n x f v])
-      | None => Err NotFound
-      end
-  end.
-Proof. reflexivity. Qed.
 
 Lemma declare_acts1_decl f n v pl a s n' v' f' : mem_str (dp_target pl) (apath a) = true ->
   a_decl (aapply_all (declare_acts1 f n v pl) a) s n' v' f' =
@@ -275,13 +245,12 @@ Lemma declare_finish_decl p a f n v pl acts : mem_str (dp_target pl) (apath a) =
   if dp_write pl && dkey_eqb (s, n', v', f') (dp_target pl, n, v, f) then Some (dp_dir pl, dp_table pl)
   else a_decl a s n' v' f'.
 Proof.
-  intros Hm. rewrite declare_finish_unfold. destruct (dp_tag pl) as [x|] eqn:Et.
-  - cbv zeta. destruct (find_exact _ _ n v f) as [[s' r]|]; [|discriminate].
-    intro H. inversion H. subst acts. intros.
+  intros Hm H. apply declare_finish_shape in H. destruct (dp_tag pl) as [x|] eqn:Et.
+  - destruct H as [rs [rs' [-> _]]]. intros.
     rewrite aapply_all_app. rewrite tag_acts_keep_decls.
     + apply declare_acts1_decl. exact Hm.
-    + apply Forall_app. split; [apply deltags_tag_acts|repeat constructor].
-  - intro H. inversion H. subst acts. intros. apply declare_acts1_decl. exact Hm.
+    + apply Forall_app. split; [apply deltags_tag_acts|]. constructor; [exact I|apply deltags_tag_acts].
+  - subst acts. intros. apply declare_acts1_decl. exact Hm.
 Qed.
 
 Lemma find_tagged_single a r n x f : no_dangling a ->
@@ -300,7 +269,22 @@ Proof.
     rewrite Ep, andb_false_r. reflexivity.
 Qed.
 
-(* the tag after a declaration that assigns one (tag move collected per stack) *)
+Lemma declare_finish_new_unfold a f n v pl :
+  declare_finish false a f n v pl =
+  match dp_tag pl with
+  | None => Ok (declare_acts1 f n v pl)
+  | Some x =>
+      let a1 := aapply_all (declare_acts1 f n v pl) a in
+      match find_exact a1 [dp_target pl; dp_target pl] n v f with
+      | Some (s', _) =>
+          Ok (declare_acts1 f n v pl ++ ASetTag s' n x f v ::
+              map (fun r => ADelTag r n x f) (other_occurrences (aapply (ASetTag s' n x f v) a1) s' n x f))
+      | None => Err NotFound
+      end
+  end.
+Proof. reflexivity. Qed.
+
+(* the tag after a declaration that assigns one (assigned first, then removed from the other stacks) *)
 Lemma declare_finish_tag a f n v pl acts x : no_dangling a ->
   mem_str (dp_target pl) (apath a) = true -> dp_tag pl = Some x ->
   declare_finish false a f n v pl = Ok acts ->
@@ -310,25 +294,24 @@ Lemma declare_finish_tag a f n v pl acts x : no_dangling a ->
   then (if str_eqb s (dp_target pl) then Some v else if mem_str s (apath a) then None else a_tag a s n' t' f')
   else a_tag a s n' t' f'.
 Proof.
-  intros Hnd Hm Et. rewrite declare_finish_unfold, Et. cbv zeta.
+  intros Hnd Hm Et. rewrite declare_finish_new_unfold, Et. cbv zeta.
   set (acts1 := declare_acts1 f n v pl). set (a1 := aapply_all acts1 a).
-  set (acts2 := map _ _). set (a2 := aapply_all acts2 a1).
-  destruct (find_exact a2 [dp_target pl; dp_target pl] n v f) as [[s' r]|] eqn:Ef; [|discriminate].
+  destruct (find_exact a1 [dp_target pl; dp_target pl] n v f) as [[s' r]|] eqn:Ef; [|discriminate].
+  apply find_exact_some in Ef. destruct Ef as [Hin Hd1].
+  assert (Hs' : s' = dp_target pl) by (destruct Hin as [<-|[<-|[]]]; reflexivity).
+  subst s'. clear Hin.
+  set (a2 := aapply (ASetTag (dp_target pl) n x f v) a1).
   intro H. inversion H. subst acts. clear H. intros s n' t' f'.
-  assert (Hs' : s' = dp_target pl).
-  { apply find_exact_some in Ef. destruct Ef as [[<-|[<-|[]]] _]; reflexivity. }
-  subst s'.
   assert (Hnd1 : no_dangling a1).
-  { unfold a1. apply aapply_all_no_dangling; [exact Hnd|].
-    unfold acts1, declare_acts1. destruct (dp_write pl); [|exact I]. cbn [acts_ok act_ok]. split; [exact I|].
-    rewrite Et. cbn [acts_ok act_ok]. split; [|exact I]. rewrite a_decl_setdecl_same by exact Hm. discriminate. }
-  rewrite !aapply_all_app. fold a1. fold a2. cbn [aapply_all fold_left].
+  { unfold a1. apply aapply_all_no_dangling; [exact Hnd|]. apply declare_acts1_ok. exact Hm. }
+  assert (Hnd2 : no_dangling a2).
+  { unfold a2. apply aapply_no_dangling; [exact Hnd1|]. cbn [act_ok]. rewrite Hd1. discriminate. }
   assert (Hp1 : apath a1 = apath a) by (unfold a1; apply apath_aapply_all).
-  assert (Hp2 : apath a2 = apath a) by (unfold a2; rewrite apath_aapply_all; exact Hp1).
-  rewrite a_tag_aapply, Hp2, Hm. cbn [andb].
-  rewrite dkey_eqb_parts.
-  unfold a2, acts2. rewrite deltags_spec. unfold occurrences.
-  rewrite mem_filter_str, (find_tagged_single a1 _ _ _ _ Hnd1), Hp1.
+  assert (Hp2 : apath a2 = apath a) by (unfold a2; rewrite apath_aapply; exact Hp1).
+  rewrite aapply_all_app. fold a1. rewrite aapply_all_cons. fold a2.
+  rewrite deltags_spec. unfold other_occurrences.
+  rewrite mem_filter_str, (find_tagged_single a2 _ _ _ _ Hnd2), Hp2.
+  unfold a2. rewrite !a_tag_aapply, Hp1, Hm. cbn [andb]. rewrite !dkey_eqb_parts.
   unfold a1, acts1. rewrite !(declare_acts1_tag f n v pl a _ _ _ _ Hm), Et. rewrite !dkey_eqb_parts.
   destruct (str_eqb_spec n' n) as [->|Nn]; cbn [andb];
     [|rewrite !andb_false_r; cbn [andb]; rewrite ?andb_false_r; reflexivity].
@@ -336,10 +319,12 @@ Proof.
     [|rewrite !andb_false_r; cbn [andb]; rewrite ?andb_false_r; reflexivity].
   destruct (str_eqb_spec f' f) as [->|Nf]; cbn [andb];
     [|rewrite !andb_false_r; cbn [andb]; rewrite ?andb_false_r; reflexivity].
-  destruct (str_eqb_spec s (dp_target pl)) as [->|Ns]; cbn [andb]; [reflexivity|].
-  rewrite !andb_false_r. rewrite !andb_true_r.
-  destruct (mem_str s (apath a)) eqn:Ep; cbn [andb]; [|reflexivity].
-  destruct (a_tag a s n x f); reflexivity.
+  rewrite !str_eqb_refl. cbn [andb].
+  destruct (str_eqb_spec s (dp_target pl)) as [->|Ns]; cbn [andb negb].
+  - rewrite !andb_false_r. cbn [andb]. reflexivity.
+  - rewrite !andb_false_r. rewrite !andb_true_r.
+    destruct (mem_str s (apath a)) eqn:Ep; cbn [andb]; [|reflexivity].
+    destruct (a_tag a s n x f); reflexivity.
 Qed.
 
 (* without a tag to assign, a declaration touches no tag *)
@@ -347,7 +332,7 @@ Lemma declare_finish_notag p a f n v pl acts : dp_tag pl = None ->
   declare_finish p a f n v pl = Ok acts ->
   forall s n' t' f', a_tag (aapply_all acts a) s n' t' f' = a_tag a s n' t' f'.
 Proof.
-  intros Et. rewrite declare_finish_unfold, Et. intro H. inversion H. subst acts. intros.
+  intros Et H. apply declare_finish_shape in H. rewrite Et in H. subst acts. intros.
   unfold declare_acts1. rewrite Et. destruct (dp_write pl); [|reflexivity].
   cbn [aapply_all fold_left]. rewrite a_tag_aapply. reflexivity.
 Qed.
@@ -585,11 +570,17 @@ Lemma declare_finish_total p a f n v pl :
   (dp_write pl = false -> a_decl a (dp_target pl) n v f <> None) ->
   exists acts, declare_finish p a f n v pl = Ok acts.
 Proof.
-  intros Hm Hw. rewrite declare_finish_unfold. destruct (dp_tag pl) as [x|]; [|eauto]. cbv zeta.
-  cbn [find_exact]. rewrite (tag_acts_keep_decls _ (deltags_tag_acts _ _ _ _)).
-  rewrite (declare_acts1_decl f n v pl a _ _ _ _ Hm), dkey_eqb_refl, andb_true_r.
-  destruct (dp_write pl); [eauto|].
-  destruct (a_decl a (dp_target pl) n v f) eqn:E; [eauto|]. exfalso. apply Hw; reflexivity.
+  intros Hm Hw. unfold declare_finish. destruct p.
+  - unfold declare_finish_old. destruct (dp_tag pl) as [x|]; [|eauto]. cbv zeta.
+    cbn [find_exact]. rewrite (tag_acts_keep_decls _ (deltags_tag_acts _ _ _ _)).
+    rewrite (declare_acts1_decl f n v pl a _ _ _ _ Hm), dkey_eqb_refl, andb_true_r.
+    destruct (dp_write pl); [eauto|].
+    destruct (a_decl a (dp_target pl) n v f) eqn:E; [eauto|]. exfalso. apply Hw; reflexivity.
+  - unfold declare_finish_new. destruct (dp_tag pl) as [x|]; [|eauto]. cbv zeta.
+    cbn [find_exact].
+    rewrite (declare_acts1_decl f n v pl a _ _ _ _ Hm), dkey_eqb_refl, andb_true_r.
+    destruct (dp_write pl); [eauto|].
+    destruct (a_decl a (dp_target pl) n v f) eqn:E; [eauto|]. exfalso. apply Hw; reflexivity.
 Qed.
 
 Lemma declare_error_is_planning_error p a o n v dir table t e :
